@@ -278,10 +278,20 @@ def run(ctx):
         vev(t)
     pe_keys = sorted(version.PE_EXPORT_STAMP_TO_VERSION)
     enum_keys = sorted(version.MAX_ENUM_TO_VERSION)
-    blk = lambda mx: tlv.block([tlv.short(1, 0), tlv.short(mx, 1)] if mx > 1 else [tlv.short(1, 0)], patch_size=0)  # noqa: E731
+    def blk(mx):
+        # the highest index sits on top of the highest table key below it (so that "the highest index present" and "the highest index with
+        # a table entry / a name" are different answers)
+        below = [k for k in enum_keys if 1 < k < mx]
+        return tlv.block([tlv.short(1, 0)] + ([tlv.short(max(below), 1)] if below else []) + ([tlv.short(mx, 1)] if mx > 1 else []), patch_size=0)
+
+    # without an export stamp the highest index PRESENT decides - also when it has no name of its own (a hole in the numbering, an index
+    # newer than the library knows): every such index once, systematically, then random combinations
+    unnamed = sorted({75, 79, 80, 81, 100, 200, 255, 1000} | {k + 1 for k in enum_keys})
+    draws = [(st_, mx_) for mx_ in unnamed + enum_keys for st_ in (None, 0)]
     for _ in range(150 if q else 2000):
-        stamp = rng.choice([None, None, 0] + pe_keys + [k + rng.choice([-1, 1]) for k in pe_keys[:6]] + [rng.randrange(1, 2**31 - 1)])
-        mx = rng.choice(enum_keys + [k + 1 for k in enum_keys] + [1, 2, 19, 75, 79, 80])
+        draws.append((rng.choice([None, None, 0] + pe_keys + [k + rng.choice([-1, 1]) for k in pe_keys[:6]] + [rng.randrange(1, 2**31 - 1)]),
+                      rng.choice(enum_keys + [k + 1 for k in enum_keys] + [1, 2, 19, 75, 79, 80])))
+    for stamp, mx in draws:
         cfgo = beacon.BeaconConfig(blk(mx))
         cfgo.pe_export_stamp = stamp
         o = core.outcome(lambda: str(cfgo.version))
